@@ -892,6 +892,16 @@ func (c *mgComp) Run(args []string) string {
 			return "bad-op"
 		}
 		return mgPace(args[1])
+	case "shared":
+		// several targets sharing one address of the real connection.Manager (mg_shared.go)
+		if c.stuck >= 3 {
+			return "stuck" // (as for run: a build that hangs has been reported already)
+		}
+		obs := mgShared(args[1:])
+		if strings.Contains(obs, "done=0") {
+			c.stuck++
+		}
+		return obs
 	case "run", "runc":
 		specs, err := mgParseTargets(args[1:])
 		if err != nil {
@@ -1119,6 +1129,10 @@ func (c *mgComp) Gen(r *rand.Rand, tier string) []string {
 		// Remove in flight while the same name is added again from another goroutine (mg_race.go)
 		seq = append(seq, fmt.Sprintf("readd %d %s", 1+r.Intn(3), []string{"U", "U", "S"}[r.Intn(3)]))
 	}
+	if r.Intn(4) == 0 || (genProfile == "conn" && r.Intn(3) == 0) {
+		// targets sharing one address: a refused shared dial is forgotten, every sharer is retried for real (mg_shared.go)
+		seq = append(seq, fmt.Sprintf("shared %d %d %s", 2+r.Intn(2), r.Intn(3), []string{"r", "r", "k", "rj", "kj"}[r.Intn(5)]))
+	}
 	if r.Intn(12) == 0 {
 		// pacing of the retries once sessions keep failing (mg_pace.go)
 		seq = append(seq, "pace "+[]string{"plain", "reconnect", "rt"}[r.Intn(3)])
@@ -1199,6 +1213,21 @@ func (c *mgComp) Exhaustive(tier string) [][]string {
 		if strings.Contains(x, "+ks") || strings.Contains(x, "+kd") {
 			emitAs("run", "T0", x+" Ru!")
 			emitAs("runc", "T0", x+" Rus.+xs")
+		}
+	}
+	// targets sharing one address of the real connection.Manager: the joint first dial is refused / cancelled
+	for _, mode := range []string{"r", "k", "rj", "kj"} {
+		for k := 2; k <= 3; k++ {
+			for fails := 0; fails <= 2; fails++ {
+				if tier == "quick" && genProfile != "conn" && fails == 2 && k == 3 {
+					continue
+				}
+				cur = append(cur, fmt.Sprintf("shared %d %d %s", k, fails, mode))
+				if len(cur) == 25 {
+					seqs = append(seqs, append(cur, "end"))
+					cur = []string{"new"}
+				}
+			}
 		}
 	}
 	for _, b := range []string{"R~", "Rus~", "R~+ks", "Ru~+xs"} {
